@@ -134,9 +134,10 @@ def closeCase (d : DSt) : DSt :=
     { d with seen := d.seen.insert d.caseHash, nontrivial := d.nontrivial + 1, caseNontrivial := false }
   else { d with caseNontrivial := false }
 
-def properPrefixes (p : Path) : List Path := (List.range p.length).drop 1 |>.map (fun n => p.take n)
 
 /-- Descriptive tags of a modify (for the classifiers of known findings; not part of the spec). -/
+def properPrefixes (p : Path) : List Path := (List.range p.length).drop 1 |>.map (fun n => p.take n)
+
 def modifyTags (d : DSt) (p : Path) (v : V) : DSt := Id.run do
   let mut d := d
   let old := getPath d.obj.fields p
@@ -201,7 +202,42 @@ def handleMR (d : DSt) (n : Nat) (isM : Bool) (p : Path) (v : V) (post : List St
 
 def parseKnown (s : String) : List Key := if s == "-" then [] else (s.splitOn ",").map String.toList
 
-def handleS (d : DSt) (n : Nat) (post : List String) : IO DSt := do
+def normOrig : V → V
+  | .null => .obj []
+  | v => v
+
+/-- The modified-attributes half of a restart through the model: the spec's config object, its runtime
+    modifications (`modify`), `dumpModified`, and the replay onto the freshly loaded object.  Returns
+    (vars, notes, original_attributes) before and after, as JSON values. -/
+def modattrModel (spec : V) : Option ((V × V × V) × (V × V × V)) :=
+  match spec with
+  | .obj kvs =>
+    let vars := match dGet? "vars".toList kvs with
+      | some (.obj x) => JValue.obj x
+      | _ => JValue.null
+    let notes := match dGet? "notes".toList kvs with
+      | some (.str s) => JValue.str s
+      | _ => JValue.str []
+    let mods : List (Path × V) := match dGet? "mods".toList kvs with
+      | some (.arr ms) => ms.filterMap (fun m => match m with
+          | .arr [.str a, v] => some (splitDots a, v)
+          | _ => none)
+      | _ => []
+    let fresh : Obj Tok := { fields := [("notes".toList, notes), ("vars".toList, vars)], original := none }
+    let ob := mods.foldl (fun o m => match modify o m.1 m.2 with | .ok o' => o' | .error _ => o) fresh
+    let oa := replayModified fresh (dumpModified ob)
+    let view := fun (o : Obj Tok) =>
+      ((dGet? "vars".toList o.fields).getD .null, (dGet? "notes".toList o.fields).getD .null, normOrig (origToJson o.original))
+    some (view ob, view oa)
+  | _ => none
+
+def cfgView (c : V) : V × V × V :=
+  match c with
+  | .obj kvs => ((dGet? "vars".toList kvs).getD .null, (dGet? "notes".toList kvs).getD .null,
+                 normOrig ((dGet? origAttrKey kvs).getD .null))
+  | _ => (.null, .null, .null)
+
+def handleS (d : DSt) (n : Nat) (sh : String) (post : List String) : IO DSt := do
   match post with
   | [kn, sbh, sah, cbh, cah] =>
     match unhexJson sbh, unhexJson sah, unhexJson cbh, unhexJson cah with
@@ -226,12 +262,23 @@ def handleS (d : DSt) (n : Nat) (post : List String) : IO DSt := do
         d := { d with mismatches := d.mismatches + 1 }
       let hasType := !onlyKnownTypesM known o.fields
       if hasType then d := { d with sTypeKey := d.sTypeKey + 1 }
-      let cfgSame := decide (cb = ca)
+      -- model: runtime modifications → DumpModifiedAttributes → replay at start-up
+      match (unhexJson sh) >>= modattrModel with
+      | some (mb, ma) =>
+        if mb != cfgView cb then
+          IO.println s!"MISMATCH line={n} case={d.caseNo} op=S what=modified_attributes_before_restart"
+          d := { d with mismatches := d.mismatches + 1 }
+        else if ma != cfgView ca then
+          IO.println s!"MISMATCH line={n} case={d.caseNo} op=S what=modified_attributes_after_restart"
+          d := { d with mismatches := d.mismatches + 1 }
+      | none => IO.println s!"BADLINE line={n}"
+      let cfgVerdict := specRestartConfig cb ca
+      let cfgSame := cfgVerdict.isNone
       let hasMods := match cb with
         | .obj kvs => (match dGet? "__original_attributes".toList kvs with | some (.obj (_ :: _)) => true | _ => false)
         | _ => false
       if hasMods then d := { d with sMods := d.sMods + 1 }
-      match specRoundtrip (JValue.obj sb) (JValue.obj sa), specRoundtrip cb ca with
+      match specRoundtrip (JValue.obj sb) (JValue.obj sa), cfgVerdict with
       | none, none => pure ()
       | a, _ =>
         let tags := (if a.isSome && hasType then ["typekey"] else if a.isSome then ["state"] else []) ++
@@ -272,7 +319,7 @@ def handle (d : DSt) (n : Nat) (line : String) : IO DSt := do
     | none => IO.println s!"BADLINE line={n}"; return d
   | ["S", sh] =>
     let d := closeCase d
-    handleS { d with caseNo := d.caseNo + 1, inM := false, caseHash := hashStr 11 sh } n post
+    handleS { d with caseNo := d.caseNo + 1, inM := false, caseHash := hashStr 11 sh } n sh post
   | ["W", kind, cseed] =>
     let d := closeCase d
     let d := { d with caseNo := d.caseNo + 1, inM := false, caseHash := hashStr (hashStr 13 kind) cseed, wCases := d.wCases + 1,
